@@ -7,6 +7,7 @@ import (
 	"encoding/json"
 	"fmt"
 	"go/ast"
+	"go/format"
 	"go/parser"
 	"go/token"
 	"go/types"
@@ -206,6 +207,28 @@ func cmtCheck(run *ev.Run, p cmtPoint) {
 	want := cmtExpected(p)
 	if strings.Join(obs, " ") != strings.Join(want, " ") {
 		run.Fail("comments/attachment-differs/"+cmtClass(p), fmt.Sprintf("%s: printed comments precede %v; the protocol attaches %v\n%s", p.opsText(), obs, want, cmtBody(src)), p)
+		return
+	}
+	if len(p.Att) > 0 {
+		fm, err := format.Source([]byte(src))
+		if err != nil {
+			run.Fail("comments/printed-text-does-not-parse/"+cmtClass(p), fmt.Sprintf("go/format: %v", err), p)
+		} else if string(fm) != src {
+			a, b := strings.Split(src, "\n"), strings.Split(string(fm), "\n")
+			i := 0
+			for i < len(a) && i < len(b) && a[i] == b[i] {
+				i++
+			}
+			la, lb := "", ""
+			if i < len(a) && i < len(b) {
+				la, lb = a[i], b[i]
+			}
+			kind := "other"
+			if strings.TrimSpace(la) == strings.TrimSpace(lb) && strings.HasPrefix(strings.TrimSpace(la), "//") {
+				kind = "comment-indentation"
+			}
+			run.Fail("comments/not-a-gofmt-fixed-point/"+kind, fmt.Sprintf("%s: go/format changes the written text: `%s` becomes `%s`", p.opsText(), la, lb), p)
+		}
 	}
 }
 
